@@ -146,6 +146,7 @@ func (i *int64InternalNode) deleteKey(minSize int, key int64) bool {
 		defer leftSibling.unlock()
 		if leftCount = leftSibling.count(); leftCount > minSize {
 			child.adoptFromLeft(leftSibling)
+			i.runts[index] = child.smallest()
 			return false
 		}
 	}
